@@ -16,6 +16,28 @@ fn main() {
             let v = dsets_of_size(dim, n);
             println!("dim {} n {}: {} classes in {:?}", dim, n, v.len(), t.elapsed());
         }
+        "interesting3d" => {
+            // 3D symbols of a given size whose euclidicity verdict is decided after simplification
+            use rayon::prelude::*;
+            let n: usize = args[2].parse().unwrap();
+            let syms = dsv::gen::dsym3::symbols_of_size(n, &dsv::gen::dsym3::CRYSTALLOGRAPHIC);
+            eprintln!("{} symbols", syms.len());
+            let out: Vec<String> = syms
+                .par_iter()
+                .filter_map(|s| {
+                    let v = dsv::runner::guarded(|| dsv::props::c17::verdict(s, false));
+                    match v {
+                        Ok(dsv::props::c17::Verdict::No(m)) if m == "orbifold invariants do not match" || m == "no pseudo-toroidal cover" => None,
+                        Ok(dsv::props::c17::Verdict::Yes) => None,
+                        Ok(v) => Some(format!("{}\t{:?}", s.text(), v)),
+                        Err(p) => Some(format!("{}\tPANIC {}", s.text(), p)),
+                    }
+                })
+                .collect();
+            for l in out {
+                println!("{}", l);
+            }
+        }
         _ => {
             let ds = DS::parse(&args[2]).unwrap().to_partial();
             let (labels, edges) = orbifold_graph(&ds);
